@@ -38,6 +38,9 @@ pub use self::{
     rate_low::{LowRate, LowRateDecoder, LowRateEncoder},
 };
 
+#[cfg(feature = "verif-hooks")]
+pub use self::rate_default::verif_use_high_rate;
+
 mod decoder_work;
 mod encoder_work;
 mod rate_default;
